@@ -76,23 +76,42 @@ theorem views_fresh_after (heap : List NodeRec) (roots : List Id)
     v.ok (abs s) = true → (step Cache.flags s (.read v)).2 = specView (abs s) v :=
   fun hok => views_fresh _ v (coherent_run ops _ (coherent_init heap roots hr hk)) hok
 
-/-- **The views of a long-lived document are those of a fresh decode of its text** (C01 link).
+/-
+  Full statement (not yet a theorem):
+
+    theorem views_fresh_decode (s₀ := initOf heap roots, well-formed and tree-shaped) (ops : List Op)
+        (s := (run Cache.flags s₀ ops).1) (v : View) (hok : v.ok (abs s)) (v's subject attached)
+        (hl : C01.Legal ⟨bom, toForest (abs s)⟩) (o : Dec.Opts) :
+        ∃ d φ, Dec.decode o (Dec.encode ⟨bom, toForest (abs s)⟩) = .ok d ∧
+          ((step Cache.flags s (.read v)).2).map φ = (step Cache.flags (ofForest d.nodes) (.read (v.map φ))).2
+
+  i.e. without `hwf` and `hiso` below.  What is proved is the same statement with these two
+  structural facts about `ofForest (toForest (abs s))` as explicit hypotheses.
+-/
+
+/-- **The views of a long-lived document are those of a fresh decode of its text** (C01 link),
+    partial: two structural facts are hypotheses.
+
     `toForest (abs s)` is the forest `Document.String()` writes; by C01 (`decode_encode`) decoding
     the encoder's text gives exactly that forest back, under every decoder option; `ofForest` is the
     state `NewDocumentFromString` builds from it.  Every view read on the live document `s` — after
     any history, with whatever is in its caches — is, node for node and in order, the view read on
-    that freshly decoded document.
+    that freshly decoded document, *provided*
 
-    Two structural facts about `ofForest (toForest (abs s))` are hypotheses, not yet theorems:
-    `hwf` (preorder allocation yields a well-formed heap) and `hiso` (it is the attached part of
-    `abs s`, renumbered by `φ`).  Both hold exactly when the attached part of `abs s` is a tree
-    (no node under two parents, no cycle) — which the edit API preserves for the operations the
-    harness generates, but which is not carried as an invariant through `step` here (it needs
-    duplicate-free arguments of `SetNodes` in `Op.ok`, a tree invariant for every primitive edit,
-    and an induction over `allocNode`/`toNode`).  The conclusion itself is checked at run time on
-    both sides: the driver's `rebuild` request evaluates it on the model for the state at the end
-    of every history, and the oracle (S) evaluates it on the real decoder after every step. -/
-theorem views_fresh_decode (s : St) (h : Inv s) (v : View) (hok : v.ok (abs s) = true)
+    * `hwf`  — the heap that preorder allocation (`allocNode`) builds from `toForest (abs s)` is
+               well-formed (every root and child id allocated), and
+    * `hiso` — that heap is the attached part of `abs s` renumbered by `φ` (same roots, tags,
+               values, pointers and child lists up to `φ`).
+
+    Both hold exactly when the attached part of `abs s` is a tree (no node under two parents, no
+    cycle, depth below `heap.length`).  Discharging them needs: duplicate-free `SetNodes` arguments
+    in `Op.ok`, a tree invariant carried through every primitive edit, and an induction over
+    `allocNode`/`toNode` relating preorder positions to the old ids.  Until then they are checked at
+    run time instead: the driver's `rebuild` request evaluates the *conclusion* (every dumped view
+    of the live state against the same views of `ofForest (toForest (abs s))`, by position) at the
+    end of every history of every run, on the model, and the oracle (S) evaluates it on the real
+    decoder after every step. -/
+theorem views_fresh_decode_partial (s : St) (h : Inv s) (v : View) (hok : v.ok (abs s) = true)
     (hsub : ∀ n, v.subject = some n → Att (abs s) n)
     (bom : Bool) (o : Dec.Opts) (hl : C01.Legal ⟨bom, toForest (abs s)⟩)
     (φ : Id → Id)
@@ -115,7 +134,9 @@ theorem reads_keep_document (s : St) (op : Op) (h : Inv s) (hr : op.isRead = tru
   · rename_i hok
     cases op with
     | read v => exact (runView_sound v s h hok).2.1
-    | warnings => rfl
+    | warnings => exact (warningsRead_pure s h trivial).2
+    | string => rfl
+    | gedcomString n => rfl
     | foreign => rfl
     | inert => rfl
     | _ => simp [Op.isRead] at hr
@@ -134,6 +155,17 @@ theorem reads_pure (s : St) (op : Op) (v : View) (h : Inv s) (hr : op.isRead = t
       unfold step
       rw [if_neg ht]
     rw [bad _ (by rw [ha]; exact hok), bad s hok]
+
+/-- `doc.String()` is a walk over the nodes: it answers the encoder's text of the current forest
+    and touches no cache … -/
+theorem string_is_encode (s : St) :
+    step Cache.flags s .string = (s, .text (Dec.encForest 0 (toForest (abs s)))) := rfl
+
+/-- … so no read — a view, `Warnings()`, `String()`, `GEDCOMString()`, or one of the black boxes —
+    changes the GEDCOM text. -/
+theorem reads_keep_text (s : St) (op : Op) (h : Inv s) (hr : op.isRead = true) :
+    (step Cache.flags (step Cache.flags s op).1 .string).2 = (step Cache.flags s .string).2 := by
+  rw [string_is_encode, string_is_encode, reads_keep_document s op h hr]
 
 /-! ## the statement fails without the invalidations: concrete histories (replayed on the code) -/
 
@@ -213,7 +245,7 @@ example : Inv demoInit := coherent_init _ _ (by decide) (by
   | 1 => simp [Abs.kids, demoHeap] at hc
   | n + 2 => simp [Abs.kids, demoHeap] at hc)
 
-/-- the hypotheses of `views_fresh_decode` are satisfiable: the demo document is what its own
+/-- the hypotheses of `views_fresh_decode_partial` are satisfiable: the demo document is what its own
     forest decodes to, with `φ = id` -/
 theorem demo_awf : AWF (abs demoInit) := ⟨by decide, by
   intro n c hc
